@@ -36,8 +36,10 @@ def items_menu(thorough):
     m.append(("delay-on", "A", 0.5))
     m.append(("delay-on", "A", 1.0))
     m.append(("delay-dur", 1.0, 1.5))
+    m.append(("on-group", "A"))      # Onset with the optional content group: listed with its content
+    m.append(("inset", "A"))         # a marker inside an open process: ends nothing, starts nothing, stays in the annotation
     if thorough:
-        m.append(("on-group", "A"))
+        m.append(("inset", "B/x"))
         m.append(("delay-dur", 0.5, 0.5))
         m.append(("delay-on", "B/x", 1.5))
     return m
@@ -86,6 +88,8 @@ def reference(rows):
                 events.append((t, seq, "on", it[1], tag))
             elif it[0] == "off":
                 events.append((t, seq, "off", it[1], None))
+            elif it[0] == "inset":
+                events.append((t, seq, "inset", it[1], None))
             elif it[0] == "dur":
                 tag = INNER[inner_i % len(INNER)]
                 inner_i += 1
@@ -135,6 +139,12 @@ def reference(rows):
                 base[k].append(p.text)
             elif kind == "tag":
                 rem[k].append(a)
+            elif kind == "inset":
+                key = a.casefold()
+                if key in used or key not in open_by_name:
+                    return None            # an Inset needs an open process of that name (and the name once per time point)
+                used.add(key)
+                rem[k].append(f"(Def/{a}, Inset)")
     for p in procs:
         if p.end is None:
             p.end = len(times)
@@ -157,6 +167,8 @@ def row_text(items, inner_start):
             i += 1
         elif it[0] == "off":
             parts.append(f"(Def/{it[1]}, Offset)")
+        elif it[0] == "inset":
+            parts.append(f"(Def/{it[1]}, Inset)")
         elif it[0] == "dur":
             unit = (" " + it[2]) if it[2] else ""
             L = it[1]
